@@ -378,6 +378,8 @@ def post_run(ctx, rows, res):
         post_c02_trace(ctx, parsed)
         post_c18(ctx, parsed)
         post_c12(ctx)
+    elif res["outcome"] == "crash":
+        post_c07(ctx, parsed, res, safety_only=True)
 
 
 # ----------------------------------------------------------------------- C05
@@ -623,7 +625,10 @@ def _has_live_path(ctx, base, n, cancelled, bynode):
 
 
 # ----------------------------------------------------------------------- C07
-def post_c07(ctx, parsed, res):
+def post_c07(ctx, parsed, res, safety_only=False):
+    """safety_only (a run that crashed): only the clauses that are established facts at the moment they
+    happen (a branch that must not run started, the join started before the taken branch finished, ...);
+    the clauses about final states are skipped, the crash may have interrupted a handler half-way"""
     resolve = ctx.world["flags"].get("resolve_conditionals_at_submission")
     end_t = ctx.end_time
     cut = end_t is not None and end_t >= ctx.world["sim"]["loop_timeout"]
@@ -684,7 +689,7 @@ def post_c07(ctx, parsed, res):
                 if s.starts > 0:
                     ctx.violate("C07", "untaken_branch_task_started",
                                 f"{s.uname} on the branch not taken by {cnode} started at {s.start_time}", {})
-                elif s.state != "CANCELLED":
+                elif s.state != "CANCELLED" and not safety_only:
                     ctx.violate("C07", "untaken_branch_task_not_cancelled",
                                 f"{s.uname} on the branch not taken by {cnode} ended in state {s.state}",
                                 {"state": s.state, "forked_branch": _branch_forks(ctx, base, k, term)})
@@ -695,7 +700,8 @@ def post_c07(ctx, parsed, res):
             taken_done = all(ctx.by_key.get((graph, n)) is not None and
                              ctx.by_key[(graph, n)].state == "COMPLETED" for n in taken_nodes)
             if ts is not None:
-                if ts.state == "CANCELLED" and taken_done and not _cancelled_by_policy(ctx, graph):
+                if ts.state == "CANCELLED" and taken_done and not safety_only and \
+                        not _cancelled_by_policy(ctx, graph):
                     ctx.violate("C07", "join_cancelled", f"{ts.uname} cancelled although the taken branch "
                                 f"{taken} completed", {})
                 if ts.starts > 0:
